@@ -649,6 +649,7 @@ type loopInfo struct {
 	decHead []*Term
 	oldSt   *State
 	entrySt *State
+	iterSt  *State // the state at the loop head (start of an arbitrary iteration): "iterentry(e)"
 	allHeap bool
 	havocked *effects
 	auto    *autoRange
@@ -767,6 +768,7 @@ type Frame struct {
 	rets     []retPoint
 	rangeCell *Cell // while a loop's own clauses are evaluated: that loop's range index cell ("rangeindex")
 	loopEntry *State // ... and the state in which that loop was entered ("loopentry(e)")
+	iterEntry *State // ... and the state at the start of the iteration that is ending ("iterentry(e)", end assertions only)
 	rangeSeq  Value  // ... and the sequence it ranges over ("rangeexpr")
 	rangeSeqT types.Type
 }
@@ -1380,6 +1382,7 @@ func (fr *Frame) loopHead(li *loopInfo, st *State) *State {
 		li.decHead = append(li.decHead, v.(Scalar).T)
 	}
 	li.havocked = eff
+	li.iterSt = n.clone()
 	if fr.depth == 0 {
 		lo := &Obligation{Name: fr.loopName(li, "vacuity", 1), Kind: "vacuity", Guard: reach, Goal: False(), NAssume: len(p.assumptions), Desc: "loop invariant and assumptions are satisfiable at the loop head", Fn: p.fname, IsCover: true}
 		lo.Pos = p.eng.fset.Position(headPos)
@@ -1405,7 +1408,8 @@ func (fr *Frame) backEdge(li *loopInfo, st *State) {
 	invs, decs := fr.loopClauses(li)
 	pos := loopPos(li)
 	fr.loopEntry = li.entrySt
-	defer func() { fr.loopEntry = nil }()
+	fr.iterEntry = li.iterSt
+	defer func() { fr.loopEntry = nil; fr.iterEntry = nil }()
 	if li.auto != nil && !li.auto.strIter {
 		fr.rangeCell, fr.rangeSeq, fr.rangeSeqT = li.auto.cell, li.auto.seq, li.auto.seqT
 		defer func() { fr.rangeCell, fr.rangeSeq, fr.rangeSeqT = nil, nil, nil }()
